@@ -308,6 +308,32 @@ def standin(tier, seed):
                 nontriv.add((tuple(str(p) for p, _ in prules), host, path))
                 if got != want:
                     fail("dispatched to %r, the first fully matching rule is %r" % (got, want), rules=repr(prules), host_rules=repr(host_rules), host=host, path=path)
+    # ---- (a2) default_host: when the request's Host matches no host rule (and there is no X-Real-Ip), the host rules whose pattern matches the WHOLE default host
+    #      apply after the constructor's handlers; a pattern that only matches a prefix of the default host does not
+    DH_RULES = [(r"www\.example\.com", "dh-www"), ("intranet", "dh-intra"), (r".*\.org", "dh-org"), (r"www\.example\.com\.au", "dh-au")]
+    for default_host in ["www.example.com.au", "intranet.corp.example", "www.example.com", "x.org", "www.example.comx", "nothing.example"]:
+        for picked in itertools.combinations(range(len(DH_RULES)), 2):
+            handlers = {}
+            app = W.Application([W.url(r"/base", handlers.setdefault("base", mk_handler("base")))], default_host=default_host)
+            for k in picked:
+                app.add_handlers(DH_RULES[k][0], [W.url(r"/p", handlers.setdefault(DH_RULES[k][1], mk_handler(DH_RULES[k][1])))])
+            for host, xreal in itertools.product(["nomatch.example", "www.example.com", "intranet", "www.example.com.au"], [False, True]):
+                for path in ("/p", "/base", "/none"):
+                    evals += 1
+                    req = fake_request(host, path)
+                    if xreal:
+                        req.headers["X-Real-Ip"] = "9.9.9.9"
+                    d = app.find_handler(req)
+                    got = getattr(d.handler_class, "tag", None) if d.handler_class is not W.ErrorHandler else None
+                    ref = [(DH_RULES[k][0], [(r"/p", DH_RULES[k][1])]) for k in picked] + [(None, [(r"/base", "base")])]
+                    if not xreal:
+                        ref += [(None, [(r"/p", DH_RULES[k][1])]) for k in picked if re.fullmatch(DH_RULES[k][0], default_host)]
+                    want = ref_route(ref, host, path)
+                    want = want[0] if want else None
+                    nontriv.add(("default_host", default_host, picked, host, xreal, path))
+                    if got != want:
+                        fail("with default_host=%r the request is dispatched to %r, the first rule matching the whole host (or, failing that, the whole default host) is %r" % (default_host, got, want),
+                             host_rules=[DH_RULES[k][0] for k in picked], host=host, x_real_ip=xreal, path=path)
     # ---- (b) nested routers and default handler
     for _ in range(20 if tier == "quick" else 200):
         inner_p = [(rng.choice(PATS), "i%d" % i) for i in range(rng.randint(1, 2))]
